@@ -18,6 +18,7 @@ type EnumOut struct {
 	ViolCount   int            `json:"viol_count"`
 	Samples     []string       `json:"samples"`
 	Families    map[string]int `json:"families"`
+	perTag      map[string]int
 }
 
 // Opts selects a shard and a tier.
@@ -32,10 +33,17 @@ func NewEnumOut() *EnumOut {
 	return &EnumOut{Classes: map[string]int{}, Families: map[string]int{}}
 }
 
-// Add records a violation (at most 40 are kept verbatim; all are counted).
+// Add records a violation. All are counted; at most 10 per distinct tag list are kept
+// verbatim, so that many counterexamples of one (possibly known) pattern can never crowd
+// out a counterexample of another pattern.
 func (o *EnumOut) Add(input, msg string, tags ...string) {
 	o.ViolCount++
-	if len(o.Viols) < 40 {
+	if o.perTag == nil {
+		o.perTag = map[string]int{}
+	}
+	k := fmt.Sprint(tags)
+	o.perTag[k]++
+	if o.perTag[k] <= 10 {
 		o.Viols = append(o.Viols, EnumViol{Input: fmt.Sprintf("%q", input), Msg: msg, Tags: tags})
 	}
 }
